@@ -26,7 +26,7 @@ func ruleR23() *Rule {
 			// the loadOrCreate call and the cells its results are assigned to
 			var loc *ssa.Call
 			for _, cs := range callSites(ivi) {
-				if f := staticCallee(cs); f != nil && f.Name() == "loadOrCreate" {
+				if f := staticCallee(cs); f != nil && namedFn(f, "vectorIndexCache.loadOrCreate") {
 					loc, _ = cs.(*ssa.Call)
 				}
 			}
